@@ -169,7 +169,8 @@ namespace sx {
     bool uninit_is_violation = true;     // an assertion term that mentions uninitialised storage
     long max_paths = 4000;               // per case
     long max_branches = 200000;          // per path: symbolic branch points
-    unsigned solver_timeout_ms = 30000;
+    unsigned solver_timeout_ms = 20000;  // per query (branch feasibility, assertions)
+    unsigned aux_timeout_ms = 2000;      // auxiliary feasibility (divisor == 0); unknown => assumed away and counted
     f64  replay_tol = 1e-6;
   };
   Policy& policy();
